@@ -86,6 +86,28 @@ def la_expected(st):
     return {"str": "Layered Architecture: " + "; ".join(parts), "layers": [n for n, _ in st], "modules": mods}
 
 
+def la_supplied_still_listed(obj, st, action):
+    """Weak check for calls the statement leaves open but the implementation accepts (e.g. a second
+    module specification for an already filled layer): 'every accepted definition lists exactly the
+    layers and modules that were supplied', so nothing supplied earlier may have disappeared and
+    what this call supplied must be listed too."""
+    supplied = set()
+    for _, c in st:
+        if c:
+            supplied |= set(c[1]) if c[0] == "names" else {c[1]}
+    if action[0] in ("cm_str", "regex"):
+        supplied.add(action[1])
+    elif action[0] == "cm_list":
+        supplied |= set(action[1])
+    try:
+        listed = {ident for fs in la_observe(obj)["modules"].values() for _, ident in fs}
+    except Exception as e:  # noqa: BLE001
+        return ("accepted-definition-cannot-be-read", "a readable definition", f"{type(e).__name__}: {e}")
+    if not supplied <= listed:
+        return ("accepted-call-dropped-supplied-modules", sorted(supplied), sorted(listed))
+    return None
+
+
 def la_spec_step(st, action):
     """st: tuple of (layer name, None | ('names', tuple) | ('regex', r))."""
     kind = action[0]
@@ -199,7 +221,7 @@ def run_shard(shard, tier, seed):
     res = Result(shard["bound"])
     if shard["part"] == "layered-architecture":
         n, t, fix, deep = e2.explore(LayeredArchitecture, la_actions(), LA_METHODS, la_canon, (), la_spec_step,
-                                     la_observe, 12, res)
+                                     la_observe, 12, res, on_dont_accepted=la_supplied_still_listed)
         res.extra["la_fixpoint_reached"] = bool(fix)
         res.extra["la_states"] = n
         res.extra["la_longest_shortest_history"] = deep
